@@ -16,8 +16,7 @@ Import ListNotations.
 Definition logged (who : option pk) (cond : bool) (r : fstate * outcome) : fstate * outcome :=
   (log_update (fst r) (mkU who cond match snd r with Ok => true | _ => false end), snd r).
 (* the ghost epoch the model counts at a completed reset() *)
-Definition epoch_counted (r : fstate * outcome) : fstate * outcome :=
-  match snd r with Ok => (new_epoch (fst r), Ok) | _ => r end.
+Definition epoch_counted (r : fstate * outcome) : fstate * outcome := StateGen.ghost_epoch r.
 
 Lemma sg_bind_ret : forall r : fstate * outcome, bind r (fun s => (s, Ok)) = r.
 Proof. intros [s o]. destruct o; reflexivity. Qed.
@@ -194,3 +193,39 @@ Proof.
     cbn [bind snd fst]; try rewrite sg_bind_ret; try reflexivity.
   symmetry. apply archive_done_eq.
 Qed.
+
+(* ---- the whole machine: the generated table interpreted with the translated
+   callbacks is Event.trigger of the model, for every state and trigger ---- *)
+Lemma sg_run_cb_ext : forall (r1 r2 : fstate -> trigger -> fstate * outcome),
+  (forall s t, r1 s t = r2 s t) -> forall s c, gen_run_cb r1 s c = run_cb r2 s c.
+Proof.
+  intros r1 r2 H s c. rewrite callbacks_eq. destruct c; cbn [gen_run_cb]; try reflexivity.
+  - unfold StateGen.archive, StateGen.archive_done, fire_prior.
+    destruct (set_transitioning s Entering) as [s1 o]; destruct o; cbn [bind snd fst]; try reflexivity.
+    destruct (archive_flag s1); [reflexivity|].
+    destruct (set_transitioning (set_archive s1 false) Active) as [s2 o]; destruct o;
+      cbn [bind snd fst]; try reflexivity.
+    destruct (prior s2) as [p|]; [|reflexivity]. destruct (state_trigger p); [|reflexivity].
+    rewrite H. reflexivity.
+  - apply H.
+Qed.
+
+Lemma sg_run_cbs_ext : forall (r1 r2 : fstate -> trigger -> fstate * outcome),
+  (forall s t, r1 s t = r2 s t) -> forall cs s, gen_run_cbs r1 s cs = run_cbs r2 s cs.
+Proof.
+  intros r1 r2 H cs. induction cs as [|c cs IH]; intro s; [reflexivity|].
+  cbn [gen_run_cbs run_cbs]. rewrite (sg_run_cb_ext r1 r2 H).
+  unfold bind. destruct (snd (run_cb r2 s c)); try reflexivity. apply IH.
+Qed.
+
+Theorem gen_fire_eq : forall f s t, gen_fire f s t = fire f s t.
+Proof.
+  induction f as [|f IH]; intros s t; [reflexivity|].
+  cbn [gen_fire fire]. destruct (find_edge t (st s)) as [e|]; [|reflexivity].
+  rewrite (sg_run_cbs_ext (gen_fire f) (fire f) IH).
+  unfold bind. destruct (snd (run_cbs (fire f) s (e_before e))); try reflexivity.
+  apply (sg_run_cbs_ext (gen_fire f) (fire f) IH).
+Qed.
+
+Theorem gen_trigger_eq : forall s t, gen_trigger s t = trigger_ s t.
+Proof. intros s t. apply gen_fire_eq. Qed.
